@@ -185,7 +185,49 @@ class Program:
                     vals[t.id] = fold(value, vals)
                 except NotConstant:
                     vals.pop(t.id, None)
+            if isinstance(st, ast.For):
+                # a table filled by a loop at import time (VALENCE_BY_ELEMENT[elem] = ...): the loop is evaluated on the constants so far
+                self._run_module_loop(st, vals, counts)
         return {k: v for k, v in vals.items() if counts.get(k) == 1}
+
+    @staticmethod
+    def _run_module_loop(st, vals, counts):
+        from .guards import Flow, Interp
+
+        def loop(interp, node):
+            seq = interp.ev(node.iter)
+            for item in list(seq):
+                interp.store(node.target, item, node)
+                try:
+                    interp.run(node.body)
+                except Flow as fl:
+                    if fl.kind == "break":
+                        break
+                    if fl.kind != "continue":
+                        raise
+        touched = {n.id for n in ast.walk(st) if isinstance(n, ast.Name)} & set(vals)
+        try:
+            it = Interp(dict(vals), loop_hook=loop, strict=True)
+            it.stmt(st)
+        except (AnalysisError, Flow, TypeError, KeyError, IndexError, AttributeError):
+            # not evaluable: every table the loop may write is no longer a known constant
+            for n in ast.walk(st):
+                if isinstance(n, (ast.Subscript, ast.Attribute)) and isinstance(n.ctx, ast.Store):
+                    b = n.value
+                    while isinstance(b, (ast.Subscript, ast.Attribute)):
+                        b = b.value
+                    if isinstance(b, ast.Name):
+                        vals.pop(b.id, None)
+                if isinstance(n, ast.Call) and isinstance(n.func, ast.Attribute) and n.func.attr in ("append", "update", "extend", "add", "setdefault", "insert"):
+                    b = n.func.value
+                    while isinstance(b, (ast.Subscript, ast.Attribute)):
+                        b = b.value
+                    if isinstance(b, ast.Name):
+                        vals.pop(b.id, None)
+            return
+        for k in touched:
+            if k in it.env:
+                vals[k] = it.env[k]
 
     def module_env(self, rel: str) -> dict:
         """Constants visible in module rel: its own and those it imports from sibling modules (folded; one copy per program)."""
@@ -201,7 +243,9 @@ class Program:
                     src_dir = base
                     for _ in range(st.level - 1):
                         src_dir = src_dir.rstrip("/").rsplit("/", 1)[0] + "/" if "/" in src_dir.rstrip("/") else ""
-                    cand = f"{src_dir}{(st.module or '').replace('.', '/')}.py"
+                    cand = f"{src_dir}{st.module.replace('.', '/')}.py" if st.module else f"{src_dir}__init__.py"
+                    if cand not in self.modules and st.module:
+                        cand = f"{src_dir}{st.module.replace('.', '/')}/__init__.py"
                     if cand in self.modules and cand != rel:
                         consts = self.module_constants(cand)
                         for a in st.names:
